@@ -21,8 +21,10 @@ from pyvc import sym
 from pyvc.rec import _has_var
 from pyvc.sym import V, VBool, VInt, VAtom, VObj, VOpaque, Unsupported, sand, sor
 
+from pyvc.refs import RefS, VRef
+
 TyS = z3.DeclareSort("Ty")
-SchemaS = z3.DeclareSort("Schema")
+SchemaS = RefS   # a schema is an ordinary symbolic object
 tkind = z3.Function("tkind", TyS, sym.I)
 of_type = z3.Function("of_type", TyS, TyS)
 possible = z3.Function("possible", SchemaS, TyS, TyS, sym.B)
@@ -48,11 +50,12 @@ class VTy(V):
         return f"VTy({self.t})"
 
 
-class VSchema(V):
+class VSchema(VRef):
     kind = "schema"
 
     def __init__(self, t):
-        self.t = t
+        from graphql.type.schema import GraphQLSchema
+        super().__init__(t, GraphQLSchema)
 
 
 def nn(t):
@@ -269,8 +272,6 @@ def install(w):
             if k in kind_of_class:
                 return sor(*[tkind(v.t) == c for c in kind_of_class[k]])
             return z3.BoolVal(False)
-        if isinstance(v, VSchema):
-            return z3.BoolVal(issubclass(GraphQLSchema, k))
         return prev_isinstance(it, v, k, node)
     w.isinstance_ext = isinstance_ext
 
@@ -282,14 +283,6 @@ def install(w):
                 it.guard(z3.Or(nn(v.t), lst(v.t)), AttributeError, node, "SAFE-Attr")
                 return VTy(of_type(v.t))
             return w.type_attr(it, v, attr, node)
-        if isinstance(v, VSchema):
-            from graphql.type.schema import GraphQLSchema as GS
-            import types as _t
-            m = GS.__dict__.get(attr)
-            if isinstance(m, _t.FunctionType):
-                from pyvc.sym import VFunc
-                return VFunc(m, recv=v, name=f"GraphQLSchema.{attr}")
-            raise Unsupported(f"schema attribute {attr}")
         return prev_getattr(it, v, attr, node)
     w.getattr_ext = getattr_ext
 
@@ -315,11 +308,13 @@ def install(w):
         return prev_ident(it, a, b, node) if prev_ident else None
     w.identical_ext = identical_ext
 
+    prev_str_of = getattr(w, "str_of_ext", None)
+
     def str_of_ext(it, v, node):
         if isinstance(v, (VTy, VSchema)):
             w.trusted_used.add("str()/format of a GraphQL type object is total (its __str__ returns the name)")
             return True
-        return False
+        return prev_str_of(it, v, node) if prev_str_of else False
     w.str_of_ext = str_of_ext
 
     prev_fresh = getattr(w, "fresh_ext", None)
@@ -347,7 +342,7 @@ def install(w):
     def concretize(model, v, it):
         if isinstance(v, VTy):
             return {"__type__": ty_chain(model, v.t)}
-        if isinstance(v, VSchema):
+        if isinstance(v, VRef) and getattr(v.cls, "__name__", "") == "GraphQLSchema":
             ev = lambda t: model.eval(t, model_completion=True)
             tys = []
             for pv in getattr(it, "param_syms", {}).values():
